@@ -1,5 +1,6 @@
 from __future__ import annotations
 
+import weakref
 from dataclasses import dataclass, field
 from typing_extensions import ClassVar, Optional, List, Any
 
@@ -17,12 +18,34 @@ class ColorLegend:
     color: str = field(default="white")
 
 
+class WeaklyHeldData:
+    """
+    Descriptor of `RWXNode.data`. The object a node stands for is referenced weakly, and the node leaves the class-level
+    graph together with it: the graph must not keep the expressions of a query (and, through their domains, the
+    user's objects) alive after the program has dropped the query.
+    """
+
+    def __get__(self, node, owner=None):
+        if node is None:
+            return None  # the dataclass default
+        data = node.__dict__.get("_data")
+        return data() if isinstance(data, weakref.ref) else data
+
+    def __set__(self, node, data):
+        try:
+            node.__dict__["_data"] = weakref.ref(data)
+        except TypeError:
+            node.__dict__["_data"] = data  # None and values that cannot be referenced weakly are kept as they are
+        else:
+            weakref.finalize(data, RWXNode._discard, node).atexit = False
+
+
 # ---- rustworkx-backed node wrapper to mimic needed anytree.Node API ----
 @dataclass
 class RWXNode:
     name: str
     weight: str = field(default='')
-    data: Optional[Any] = field(default=None)
+    data: Optional[Any] = WeaklyHeldData()
     _primary_parent_id: Optional[int] = None
     color: ColorLegend = field(default_factory=ColorLegend)
     # Grouping/boxing options
@@ -39,6 +62,21 @@ class RWXNode:
     def __post_init__(self):
         # store self as node data to keep a 1:1 mapping
         self.id: int = self._graph.add_node(self)
+
+    @staticmethod
+    def _discard(node: "RWXNode"):
+        """
+        Remove a node whose object is gone from the class-level graph. Children that had it as their primary parent
+        fall back to one of their remaining parents.
+        """
+        graph = node._graph
+        if not graph.has_node(node.id) or graph[node.id] is not node:
+            return
+        orphans = [c for c in graph.successors(node.id) if c._primary_parent_id == node.id]
+        graph.remove_node(node.id)
+        for child in orphans:
+            remaining = graph.predecessors(child.id)
+            child._primary_parent_id = remaining[0].id if remaining else None
 
     # Non-primary connect: add edge without changing primary parent pointer
     def add_parent(self, parent: "RWXNode", edge_weight=None):
